@@ -3,6 +3,7 @@ import GceTcb.Model.ArgvTrees
 import GceTcb.Props.C01Cli
 import GceTcb.Props.C17Cli
 import GceTcb.Props.C12Cli
+import GceTcb.Props.C15Cli
 import GceTcb.Gen.ArgvFlags
 /-
 argv tokenising (spf13/pflag `FlagSet.Parse` as cobra calls it) and cobra's command resolution, for the command lines
@@ -10,6 +11,10 @@ of C01 / C02 / C17 (gcetcbendorsement), C06 / C15 (endorse) and C12 (bootstrap /
 Model: Model/Argv.lean, trees: Model/ArgvTrees.lean, lemmas: Proofs/Argv.lean.  The theorems named `C06_argv_*` are
 the laws of pflag's `parseArgs` for EVERY flag table (all three tools rest on them); `C01_argv_*`, `C12_argv_*`,
 `C17_argv_*` are about cobra's resolution on the concrete trees and the composition with the command-line models.
+`C06_argv_cli_*` / `C15_argv_cli_*`: the headline theorems of Props/C06Cli and Props/C15Cli restated over RAW ARGV
+(`endorseRun` = EndorseCli.cliRun ∘ endorseFlagsOf ∘ runTool), with the spellings of the Bool flags as theorems;
+`C*_argv_flag_defs` / `C*_argv_flag_kinds`: the trees' per-flag columns equal the rows regenerated from the
+flag-defining calls (Gen.ArgvFlags.flagDefs).
 -/
 namespace GceTcb.Props.CliArgv
 open GceTcb GceTcb.Argv GceTcb.ArgvTrees
@@ -224,6 +229,33 @@ theorem C12_argv_canon_np :
     ∀ p ∈ ["endorse", "bootstrap", "rotate", "wipeout"], canon npTree (pathOf p) = true := by
   decide +kernel
 
+/-- … and of cmd.MakeApp over components without flags of their own (the tree of streams c06cli / c15cli). -/
+theorem C06_argv_canon_ap :
+    ∀ p ∈ ["endorse", "bootstrap", "rotate", "wipeout"], canon apTree (pathOf p) = true := by
+  decide +kernel
+
+
+/-- … and through `runTool` (Bool texts checked): if moreover every Bool occurrence carries a text strconv.ParseBool
+    accepts, the tool run on the rendering IS the run of the command with these occurrences and positionals. -/
+theorem C01_argv_runTool_roundtrip (T0 : Tree) (path : List Tok) (occs : List Occ) (pos : List Tok)
+    (hc : canon T0 path = true)
+    (ho : ∀ o ∈ occs, renderable (T0.full.withHelp path) o = true)
+    (hh : helpVal occs = false)
+    (ha : argsErr (argsOf T0.full path) pos = none)
+    (hb : firstBad (boolOk (T0.full.withHelp path)) [] occs = none) :
+    runTool T0 (render path occs pos) = .run path occs pos (hooksFor T0.full path) := by
+  have hx := C01_argv_roundtrip T0 path occs pos hc ho hh ha
+  have hwc : (T0.full).withComplete (render path occs pos) = T0.full := by
+    simp only [canon, Bool.and_eq_true, Bool.not_eq_true', bne_iff_ne, ne_eq] at hc
+    obtain ⟨⟨⟨⟨_, _⟩, hc2⟩, hne⟩, _⟩ := hc
+    have hR : ∀ fs, stripFlags fs (occs.map renderOcc ++ ['-', '-'] :: pos) = [] :=
+      fun fs => stripFlags_tail fs occs pos
+    have hf2 := find_chain _ path _ hc2 hR
+    apply withComplete_of_ne
+    simp only [render]
+    rw [hf2.1]; exact hne
+  unfold runTool
+  simp only [hx, Res.withSet, Res.occs, Res.cmd, hwc, hb]
 
 /-! ## observations on the concrete trees (each replayed on the real commands by stream `argv`, generator
     "observation") -/
@@ -290,9 +322,7 @@ variable {Cert Roots Time R Q : Type}
 def strOcc (o : Occ) : String × String := (String.ofList o.1, String.ofList o.2)
 
 /-- cobra's own commands (`help`, `completion …`, `__complete`): no code of the repository runs. -/
-def builtin : List Tok → Bool
-  | w :: _ => w == "help".toList || w == "completion".toList || w == completeName
-  | [] => false
+abbrev builtin : List Tok → Bool := builtinCmd
 
 def rpCmdLine (c : List Tok) (os : List Occ) (pos : List Tok) : CmdLine :=
   { cmd := pathString c, flags := os.map strOcc, args := pos.map String.ofList }
@@ -388,44 +418,6 @@ end Rp
 section Key
 open GceTcb.KeyCli GceTcb.KeyHistory
 
-def lastStr (n : String) (dflt : String) (os : List Occ) : String :=
-  match lastOcc n.toList os with
-  | some v => String.ofList v
-  | none => dflt
-
-/-- pflag Bool: the last occurrence (its text was checked by `runTool`), default false. -/
-def lastBool (n : String) (os : List Occ) : Bool :=
-  match lastOcc n.toList os with
-  | some v => (parseBool v).getD false
-  | none => false
-
-/-- every occurrence in order (the flag types whose `Set` is repository code) -/
-def everyOcc (n : String) (os : List Occ) : List String :=
-  (os.filter (fun o => o.1 == n.toList)).map (fun o => String.ofList o.2)
-
-/-- The record of Model/KeyCli.lean from what tokenising yields. -/
-def keyFlagsOf (sub : Sub) (os : List Occ) (pos : List Tok) : CliFlags :=
-  { sub := sub
-    rootKeyCn := lastStr "root_key_cn" "GCE-cc-tcb-root" os
-    signingKeyCn := lastStr "signing_key_cn" "GCE-uefi-signer" os
-    rootKeySerial := everyOcc "root_key_serial" os
-    initialSigningKeySerial := everyOcc "initial_signing_key_serial" os
-    rotatedKeySerialOverride := everyOcc "rotated_key_serial_override" os
-    timestamp := everyOcc "timestamp" os
-    forceProdWipeout := lastBool "force_prod_wipeout" os
-    overwrite := lastBool "overwrite" os
-    keepGoing := lastBool "keep_going" os
-    args := pos.map String.ofList
-    keyDir := lastStr "key_dir" "private_keys" os
-    bucketRoot := lastStr "bucket_root" "" os
-    bucket := lastStr "bucket" "certs-dev" os
-    certDir := lastStr "cert_dir" "signer_certs" os
-    rootPath := lastStr "root_path" "" os }
-
-def subOf (c : List Tok) : Option Sub :=
-  if c = ws ["bootstrap"] then some .bootstrap else if c = ws ["rotate"] then some .rotate
-  else if c = ws ["wipeout"] then some .wipeout else none
-
 /-- `nonprod <argv>` as far as the key-management commands go: the context handed to rotate.Bootstrap / Key /
     Wipeout, or the refusal (`none`: argv is not one of the three commands reaching its Run). -/
 def keyCmdOf (W : Wiring) (pt : String → Option (Int × Nat)) (E : KeyCli.Env) (s : State) (argv : List String) :
@@ -450,6 +442,22 @@ theorem C12_argv_accept_iff (W : Wiring) (pt : String → Option (Int × Nat)) (
   refine ⟨cmdOf W pt E s (keyFlagsOf sub os pos), by simp [keyCmdOf, hr, hs], ?_⟩
   exact C12_cli_accept_iff W pt E s (keyFlagsOf sub os pos)
 
+/-- `wipeout --force_prod_wipeout false` through the glue: the record `keyFlagsOf` reads has the force flag SET and
+    the positional `false` — so (C12_cli_wipeout_selection) an accepted run hands the library a forced wipeout that
+    selects neither the certificate authority nor the keys. -/
+theorem C12_argv_force_false_word (W : Wiring) (pt : String → Option (Int × Nat)) (E : KeyCli.Env) (s : State) (h : Handed)
+    (hc : keyCmdOf W pt E s ["wipeout", "--force_prod_wipeout", "false"] = some (.ok h)) :
+    h.cmd = .wipeout ⟨false, false⟩ ⟨true, false, false⟩ := by
+  have hr : runTool npTree (List.map String.toList ["wipeout", "--force_prod_wipeout", "false"]) =
+      .run (ws ["wipeout"]) [("force_prod_wipeout".toList, "true".toList)] (ws ["false"]) [ws ["wipeout"]] :=
+    C12_argv_bool_takes_no_value
+  have hs : subOf (ws ["wipeout"]) = some .wipeout := by decide
+  simp only [keyCmdOf, hr, hs, Option.map_some, Option.some.injEq] at hc
+  obtain ⟨ca, keys, h1, _, h3⟩ := C12_cli_wipeout_selection W pt E s _ h rfl hc
+  have := h3 "false" [] (by decide)
+  rw [h1, this.1, this.2]
+  rfl
+
 /-- Anything cobra refuses or answers with usage never reaches a key-management command. -/
 theorem C12_argv_refused_reaches_nothing (W : Wiring) (pt : String → Option (Int × Nat)) (E : KeyCli.Env) (s : State)
     (argv : List String) (h : ∀ c os pos hooks, runTool npTree (argv.map String.toList) ≠ .run c os pos hooks) :
@@ -462,6 +470,345 @@ theorem C12_argv_refused_reaches_nothing (W : Wiring) (pt : String → Option (I
 
 end Key
 
+
+/-! ## the `endorse` command over raw argv: `EndorseCli.cliRun ∘ endorseFlagsOf ∘ tokenise` -/
+
+section EndorseArgv
+open GceTcb.EndorseCli GceTcb.Endorse GceTcb.Endorse.Spec GceTcb.VF GceTcb.Commit
+
+/-- What `endorseFlagsOf` accepts is the record read off the occurrences: last occurrence for String / Bool /
+    numeric flags, every occurrence in order for `--timestamp`, `--snp_product` and (through the CSV reader)
+    `--tdx_machine_shapes`, the trimmed last `--commit`; and every numeral occurrence was a numeral in range, every
+    `--commit` occurrence hexadecimal. -/
+theorem C06_argv_cli_flags_of (N : Numerals) (os : List Occ) (fl : CliFlags) (h : endorseFlagsOf N os = .ok fl) :
+    ∃ shapes, csvAll N (everyOcc "tdx_machine_shapes" os) = some shapes ∧
+      uintsOk N (2 ^ 64) (everyOcc "clspec" os) = true ∧ uintsOk N (2 ^ 32) (everyOcc "snp_launch_vmsas" os) = true ∧
+      intsOk N (everyOcc "commit_retries" os) = true ∧
+      (everyOcc "commit" os).all (fun t => (hexDecode (trimSpace t)).isSome) = true ∧
+      fl = { addSnp := lastBool "add_snp" os, addTdx := lastBool "add_tdx" os, uefi := lastStr "uefi" "" os,
+             svsmPath := lastStr "svsm_path" "" os,
+             svsmSnpMeasurementPath := lastStr "svsm_snp_measurement_path" "" os,
+             candidateName := lastStr "candidate_name" "" os, releaseBranch := lastStr "release_branch" "" os,
+             clspec := lastUint N "clspec" 0 os, commit := trimSpace (lastStr "commit" "" os),
+             commitRetries := lastInt N "commit_retries" 5 os, outDir := lastStr "out_dir" "" os,
+             dryRun := lastBool "dry_run" os, timestamp := everyOcc "timestamp" os,
+             snpFamilyId := lastStr "snp_family_id" "" os, snpImageId := lastStr "snp_image_id" "" os,
+             snpLaunchVmsas := lastUint N "snp_launch_vmsas" 0 os, snpProduct := everyOcc "snp_product" os,
+             tdxIncludeEarlyAccept := lastBool "tdx_include_early_accept" os, tdxMachineShapes := shapes,
+             measurementOnly := lastBool "measurement_only" os, snapshotDir := lastStr "snapshot_dir" "" os,
+             overwrite := lastBool "overwrite" os } := by
+  unfold endorseFlagsOf at h
+  split at h
+  · cases h
+  · split at h
+    · cases h
+    · split at h
+      · cases h
+      · split at h
+        · cases h
+        · split at h
+          · cases h
+          · rename_i h1 h2 h3 h4 _ shapes hs
+            simp only [Outcome.ok.injEq] at h
+            refine ⟨shapes, hs, by simpa using h1, by simpa using h2, by simpa using h3,
+              by simpa [Option.isSome_iff_ne_none] using h4, h.symm⟩
+
+/-- A run over raw argv that has ANY effect is a run of `EndorseCli.cliRun` on the record tokenising yields: cobra
+    resolved argv to `endorse` and reached its hooks, every built-in value type accepted its texts. -/
+theorem C06_argv_cli_reduces (T : Tree) (N : Numerals) (P : Params) (Pr : Prims) (Tb : Tables) (E : Env)
+    (keys : Option Keys) (vcs : Option (List Attempt)) (vcss : List (List Attempt)) (argv : List String)
+    (eff : Eff) (h : eff ∈ (endorseRun T N P Pr Tb E keys vcs vcss argv).effects) :
+    ∃ os pos hooks fl, runTool T (argv.map String.toList) = .run endorsePath os pos hooks ∧
+      endorseFlagsOf N os = .ok fl ∧
+      endorseRun T N P Pr Tb E keys vcs vcss argv = cliRun P Pr Tb E fl keys vcs vcss := by
+  unfold endorseRun endorseOfArgv at h ⊢
+  cases hr : runTool T (argv.map String.toList) with
+  | err c os e => simp [hr] at h
+  | help c os pos => simp [hr] at h
+  | run c os pos hooks =>
+    simp only [hr] at h ⊢
+    by_cases hc : c = endorsePath
+    · subst hc
+      simp only [if_true] at h ⊢
+      cases hf : endorseFlagsOf N os with
+      | ok fl => exact ⟨os, pos, hooks, fl, rfl, hf, rfl⟩
+      | err e => simp [hf] at h
+      | panic s => simp [hf] at h
+    · by_cases hb : builtinCmd c = true <;> simp [hc, hb] at h
+
+/-- C06 (a) over raw argv: for every argv that cobra resolves to `endorse` and whose command line is accepted, the
+    endorse.Context handed to the pipeline carries what the ARGV names — last `--add_snp` / `--add_tdx` texts decide
+    the sections; in every section the SVN of the side file beside the last `--uefi`; the last `--snp_family_id`,
+    `--snp_image_id`, `--snp_launch_vmsas` numeral; the product after all `--snp_product` occurrences in order; the
+    shapes of all `--tdx_machine_shapes` occurrences concatenated; the last `--clspec` numeral; the trimmed last
+    `--commit` decoded; the time after all `--timestamp` occurrences (or the time of the run); the bytes of the file
+    at the last `--uefi`; the last texts of the mode flags and directories.  Positional words change nothing. -/
+theorem C06_argv_cli_request (T : Tree) (N : Numerals) (P : Params) (U : String → Option Bytes) (E : Env)
+    (argv : List String) (os : List Occ) (pos : List Tok) (hooks : List (List Tok)) (fl : CliFlags) (ec : EC) (ow : Bool)
+    (_hr : runTool T (argv.map String.toList) = .run endorsePath os pos hooks)
+    (hf : endorseFlagsOf N os = .ok fl) (h : ecOf P U E fl = .ok (ec, ow)) :
+    (ec.snp.isSome = lastBool "add_snp" os ∧ ec.tdx.isSome = lastBool "add_tdx" os) ∧
+    (∀ r, ec.snp = some r → r.svn = sideSvn P E (lastStr "uefi" "" os) ∧
+        r.familyId = lastStr "snp_family_id" "" os ∧ r.imageId = lastStr "snp_image_id" "" os ∧
+        r.launchVmsas = lastUint N "snp_launch_vmsas" 0 os ∧
+        productSetAll P defaultProduct (everyOcc "snp_product" os) = .ok r.product) ∧
+    (∀ t, ec.tdx = some t → t.svn = sideSvn P E (lastStr "uefi" "" os) ∧
+        t.includeEarlyAccept = lastBool "tdx_include_early_accept" os ∧
+        csvAll N (everyOcc "tdx_machine_shapes" os) = some t.machineShapes) ∧
+    (ec.clSpec = lastUint N "clspec" 0 os ∧ hexDecode (trimSpace (lastStr "commit" "" os)) = some ec.commit) ∧
+    (∃ ts, timeSetAll P zeroTime (everyOcc "timestamp" os) = .ok ts ∧
+        ec.timestamp = if ts = zeroTime then E.now else ts) ∧
+    (E.readFile (lastStr "uefi" "" os) = some ec.image ∧ ec.imageName = pathBase (lastStr "uefi" "" os)) ∧
+    (ec.dryRun = lastBool "dry_run" os ∧ ec.measurementOnly = lastBool "measurement_only" os ∧
+      ow = lastBool "overwrite" os ∧ ec.snapshotDir = lastStr "snapshot_dir" "" os ∧
+      ec.candidateName = lastStr "candidate_name" "" os ∧ ec.outDir = lastStr "out_dir" "" os ∧
+      ec.commitRetries = lastInt N "commit_retries" 5 os ∧ ec.releaseBranch = lastStr "release_branch" "" os) := by
+  obtain ⟨shapes, hs, _, _, _, _, rfl⟩ := C06_argv_cli_flags_of N os fl hf
+  obtain ⟨h1, h2, h3, h4, h5, h6, _, h8⟩ := C06_cli_request P U E _ ec ow h
+  refine ⟨h1, h2, ?_, h4, h5, h6, h8⟩
+  intro t ht
+  obtain ⟨a, b, c⟩ := h3 t ht
+  exact ⟨a, b, by rw [hs, c]⟩
+
+/-- C06 over raw argv, the document: every document `endorse argv` hands to the signer is a document of
+    `C06_cli_document` for the record tokenising yields — it describes the image at the last `--uefi` and the command
+    line the argv spells. -/
+theorem C06_argv_cli_document (T : Tree) (N : Numerals) (P : Params) (Pr : Prims) (Tb : Tables) (E : Env)
+    (keys : Option Keys) (vcs : Option (List Attempt)) (vcss : List (List Attempt)) (argv : List String)
+    (hT : Tb.vmsaCounts.Nodup) (k : String) (d : Golden)
+    (hsign : Eff.sign k d ∈ (endorseRun T N P Pr Tb E keys vcs vcss argv).effects) :
+    ∃ os pos hooks shapes img commit ts prod,
+      runTool T (argv.map String.toList) = .run endorsePath os pos hooks ∧
+      csvAll N (everyOcc "tdx_machine_shapes" os) = some shapes ∧
+      E.readFile (lastStr "uefi" "" os) = some img ∧
+      hexDecode (trimSpace (lastStr "commit" "" os)) = some commit ∧
+      timeSetAll P zeroTime (everyOcc "timestamp" os) = .ok ts ∧
+      productSetAll P defaultProduct (everyOcc "snp_product" os) = .ok prod ∧
+      lastBool "measurement_only" os = false ∧
+      d.digest = Pr.sha384 img ∧ d.clSpec = lastUint N "clspec" 0 os ∧ d.commit = commit ∧
+      d.timestamp = some (if ts = zeroTime then E.now else ts) ∧
+      (lastBool "add_snp" os = false → d.snp = none) ∧
+      (lastBool "add_snp" os = true → ∃ s, d.snp = some s ∧ s.svn = sideSvn P E (lastStr "uefi" "" os) ∧
+        s.measurements.map (·.1) = snpCounts Tb.vmsaCounts (lastUint N "snp_launch_vmsas" 0 os) ∧
+        (∀ p ∈ s.measurements, Pr.launchDigest img p.1 prod = .ok p.2)) ∧
+      (lastBool "add_tdx" os = false → d.tdx = none) ∧
+      (lastBool "add_tdx" os = true → ∃ t, d.tdx = some t ∧ t.svn = sideSvn P E (lastStr "uefi" "" os) ∧
+        Paired (WrittenRow Pr Tb img) (tdxConfigs shapes (lastBool "tdx_include_early_accept" os)) t.rows) := by
+  obtain ⟨os, pos, hooks, fl, hr, hf, hrun⟩ := C06_argv_cli_reduces T N P Pr Tb E keys vcs vcss argv _ hsign
+  rw [hrun] at hsign
+  obtain ⟨shapes, hs, _, _, _, _, rfl⟩ := C06_argv_cli_flags_of N os fl hf
+  obtain ⟨img, commit, ts, prod, a1, a2, a3, a4, a5, a6, a7, a8, a9, a10, a11, a12, a13⟩ :=
+    C06_cli_document P Pr Tb E _ keys vcs vcss hT k d hsign
+  refine ⟨os, pos, hooks, shapes, img, commit, ts, prod, hr, hs, a1, a2, a3, a4, a5, a6, a7, a8, a9, a10, ?_, a12, a13⟩
+  intro hsn
+  obtain ⟨s, b1, b2, b3, b4, _⟩ := a11 hsn
+  exact ⟨s, b1, b2, b3, b4⟩
+
+/-! ### C15 over raw argv -/
+
+/-- `--dry_run` as the argv spells it: IF the last `--dry_run` occurrence tokenising yields reads true (every
+    spelling below), then whatever else argv holds, the only calls a VersionControl sees are Result without a commit
+    and the RetriableError query — no workspace, no file, no commit. -/
+theorem C15_argv_cli_dry_run_pure (T : Tree) (N : Numerals) (P : Params) (Pr : Prims) (Tb : Tables) (E : Env)
+    (keys : Option Keys) (vcs : Option (List Attempt)) (vcss : List (List Attempt)) (argv : List String)
+    (hd : ∀ os pos hooks, runTool T (argv.map String.toList) = .run endorsePath os pos hooks →
+      lastBool "dry_run" os = true) :
+    ∀ i ev, Eff.vcs i ev ∈ (endorseRun T N P Pr Tb E keys vcs vcss argv).effects →
+      (ev.kind = .result ∧ ev.ok = false) ∨ ev.kind = .retriable := by
+  intro i ev h
+  obtain ⟨os, pos, hooks, fl, hr, hf, hrun⟩ := C06_argv_cli_reduces T N P Pr Tb E keys vcs vcss argv _ h
+  rw [hrun] at h
+  obtain ⟨shapes, _, _, _, _, _, rfl⟩ := C06_argv_cli_flags_of N os fl hf
+  exact C15_cli_dry_run_pure P Pr Tb E _ keys vcs vcss (hd os pos hooks hr) i ev h
+
+/-- `--measurement_only` as the argv spells it: nothing but standard output is touched. -/
+theorem C15_argv_cli_measurement_only_pure (T : Tree) (N : Numerals) (P : Params) (Pr : Prims) (Tb : Tables)
+    (E : Env) (keys : Option Keys) (vcs : Option (List Attempt)) (vcss : List (List Attempt)) (argv : List String)
+    (hm : ∀ os pos hooks, runTool T (argv.map String.toList) = .run endorsePath os pos hooks →
+      lastBool "measurement_only" os = true) :
+    ∀ eff ∈ (endorseRun T N P Pr Tb E keys vcs vcss argv).effects, ∃ l, eff = Eff.stdout l := by
+  intro eff h
+  obtain ⟨os, pos, hooks, fl, hr, hf, hrun⟩ := C06_argv_cli_reduces T N P Pr Tb E keys vcs vcss argv _ h
+  rw [hrun] at h
+  obtain ⟨shapes, _, _, _, _, _, rfl⟩ := C06_argv_cli_flags_of N os fl hf
+  exact C15_cli_measurement_only_pure P Pr Tb E _ keys vcs vcss (hm os pos hooks hr) eff h
+
+/-- (c) over raw argv: an argv that cobra / pflag refuse (unknown flag, value flag at the end, a Bool text that is
+    no Bool, unknown command), answer with usage, or resolve to another command; a numeral that is none or out of
+    range; a `--commit` that is not hexadecimal; a command line the command refuses — NO effect at all, and unless
+    it is usage (the help flag, or one of cobra's own commands) the run is an error. -/
+theorem C15_argv_cli_refused_pure (T : Tree) (N : Numerals) (P : Params) (Pr : Prims) (Tb : Tables) (E : Env)
+    (keys : Option Keys) (vcs : Option (List Attempt)) (vcss : List (List Attempt)) (argv : List String)
+    (h : ∀ fl pos, endorseOfArgv T N (argv.map String.toList) = .flags fl pos →
+      (ecOf P Pr.parseUuid E fl).isOk = false) :
+    (endorseRun T N P Pr Tb E keys vcs vcss argv).effects = [] ∧
+    (endorseOfArgv T N (argv.map String.toList) ≠ .usage →
+      ∃ e, (endorseRun T N P Pr Tb E keys vcs vcss argv).result = .err e) := by
+  unfold endorseRun
+  cases ho : endorseOfArgv T N (argv.map String.toList) with
+  | flags fl pos =>
+    obtain ⟨h1, e, h2⟩ := C15_cli_refused_pure P Pr Tb E fl keys vcs vcss (h fl pos ho)
+    exact ⟨h1, fun _ => ⟨e, h2⟩⟩
+  | refused e => exact ⟨rfl, fun _ => ⟨e, rfl⟩⟩
+  | other c => exact ⟨rfl, fun _ => ⟨_, rfl⟩⟩
+  | usage => exact ⟨rfl, fun hh => absurd rfl hh⟩
+
+/-! ### spellings of a Bool flag (pflag laws for every flag table, then the `endorse` trees) -/
+
+/-- A bare Bool flag (`--name` of a flag with a NoOptDefVal) sets its NoOptDefVal and takes NO value word: whatever
+    the next word is, it is read on its own. -/
+theorem C15_argv_bool_takes_no_value_word (fs : List FlagSpec) (inter : Bool) (n : Tok) (f : FlagSpec) (rest : List Tok)
+    (hl : lookupLong fs n = some f) (hv : f.noOpt ≠ []) (hne : n ≠ [])
+    (hh : ∀ c cs, n = c :: cs → c ≠ '-' ∧ c ≠ '=') (heq : n.contains '=' = false) :
+    parseArgs fs inter (('-' :: '-' :: n) :: rest) = (parseArgs fs inter rest).addOccs [(n, f.noOpt)] := by
+  have hn := lookupLong_name hl
+  have hc : classify fs ('-' :: '-' :: n) rest.head? = .flags [(n, f.noOpt)] false := by
+    cases n with
+    | nil => exact absurd rfl hne
+    | cons c cs =>
+      have hcc := hh c cs rfl
+      have hs := splitEq_noEq (c :: cs) heq
+      simp [classify, parseLong, hcc.1, hcc.2, hs, hl, hv, hn]
+  rw [parseArgs, hc]
+
+/-- … so `--name false` does NOT switch the flag off: the flag is set to its NoOptDefVal ("true") and `false` is a
+    positional word. -/
+theorem C15_argv_bool_false_word_is_positional (fs : List FlagSpec) (n : Tok) (f : FlagSpec) (rest : List Tok)
+    (hl : lookupLong fs n = some f) (hv : f.noOpt ≠ []) (hne : n ≠ [])
+    (hh : ∀ c cs, n = c :: cs → c ≠ '-' ∧ c ≠ '=') (heq : n.contains '=' = false) :
+    parseArgs fs true (('-' :: '-' :: n) :: "false".toList :: rest) =
+      ((parseArgs fs true rest).addPos "false".toList).addOccs [(n, f.noOpt)] := by
+  rw [C15_argv_bool_takes_no_value_word fs true n f _ hl hv hne hh heq,
+    parseArgs_plain fs "false".toList rest (by decide)]
+
+/-- Repetition and position: the LAST occurrence decides, wherever it stands among the other flags. -/
+theorem C15_argv_last_occurrence_wins (n : String) (a b : List Occ) :
+    lastBool n (a ++ b) = if (lastOcc n.toList b).isSome then lastBool n b else lastBool n a := by
+  unfold lastBool
+  rw [lastOcc_append]
+  cases lastOcc n.toList b <;> rfl
+
+/-- the reading of Bool flag `n` when argv reaches `endorse` -/
+def boolOf (n : String) (T : Tree) (argv : List String) : Option Bool :=
+  match runTool T (argv.map String.toList) with
+  | .run c os _ _ => if c = endorsePath then some (lastBool n os) else none
+  | _ => none
+
+def dryOf (T : Tree) (argv : List String) : Option Bool := boolOf "dry_run" T argv
+
+def refusedByCobra (T : Tree) (argv : List String) : Bool :=
+  match runTool T (argv.map String.toList) with
+  | .err _ _ _ => true
+  | _ => false
+
+/-- Every accepted spelling of `--dry_run` on both `endorse` trees (cmd.MakeApp over flag-less components, and the
+    non-production application) reads true: bare, `=true`, `=1`, `=T`, before and after other flags, after a
+    `--dry_run=false`, written `--dry_run=true` in FRONT of the command word (a bare `--dry_run` there is refused:
+    `C15_argv_cli_dry_run_refused`) — and `--dry_run false` (the word `false` is a positional the command ignores). -/
+theorem C15_argv_cli_dry_run_spellings :
+    ∀ T ∈ [apTree, npTree], ∀ argv ∈
+      [["endorse", "--dry_run"], ["endorse", "--dry_run=true"], ["endorse", "--dry_run=1"], ["endorse", "--dry_run=T"],
+       ["endorse", "--uefi", "fw.fd", "--dry_run"], ["endorse", "--dry_run", "--uefi", "fw.fd"],
+       ["endorse", "--dry_run", "--uefi=fw.fd", "--dry_run"], ["endorse", "--dry_run=false", "--dry_run"],
+       ["endorse", "--uefi", "fw.fd", "--dry_run", "false"], ["endorse", "--dry_run", "false", "--add_snp"],
+       ["endorse", "x", "--dry_run"], ["endorse", "--measurement_only", "--dry_run"], ["--dry_run=true", "endorse"]],
+      dryOf T argv = some true := by
+  decide +kernel
+
+/-- The spellings that switch it off or do not set it: `=false`, `=0`, a later `=false`, after `--` (positional),
+    swallowed as the value of a value flag. -/
+theorem C15_argv_cli_dry_run_off :
+    ∀ T ∈ [apTree, npTree], ∀ argv ∈
+      [["endorse"], ["endorse", "--dry_run=false"], ["endorse", "--dry_run=0"], ["endorse", "--dry_run", "--dry_run=false"],
+       ["endorse", "--", "--dry_run"], ["endorse", "--uefi", "--dry_run"]],
+      dryOf T argv = some false := by
+  decide +kernel
+
+/-- … and the ones cobra / pflag refuse before any hook: a Bool text that is no Bool, an `=`-less value glued on,
+    the flag in front of the command word (the root does not know it). -/
+theorem C15_argv_cli_dry_run_refused :
+    ∀ T ∈ [apTree, npTree], ∀ argv ∈
+      [["endorse", "--dry_run=maybe"], ["endorse", "--dry_run="], ["endorse", "--dry_runs"], ["--dry_run", "endorse"],
+       ["endorse", "-dry_run"]],
+      refusedByCobra T argv = true := by
+  decide +kernel
+
+/-- `endorse --uefi fw.fd --add_snp --dry_run false` IS a dry run, on every environment: the no-side-effect
+    conclusion of C15 holds for it (and for every argv of `C15_argv_cli_dry_run_spellings`, by the same proof). -/
+theorem C15_argv_cli_dry_run_false_is_dry (N : Numerals) (P : Params) (Pr : Prims) (Tb : Tables) (E : Env)
+    (keys : Option Keys) (vcs : Option (List Attempt)) (vcss : List (List Attempt)) :
+    runTool apTree (ws ["endorse", "--uefi", "fw.fd", "--add_snp", "--dry_run", "false"]) =
+      .run endorsePath [("uefi".toList, "fw.fd".toList), ("add_snp".toList, "true".toList), ("dry_run".toList, "true".toList)]
+        (ws ["false"]) [endorsePath] ∧
+    ∀ i ev, Eff.vcs i ev ∈ (endorseRun apTree N P Pr Tb E keys vcs vcss
+        ["endorse", "--uefi", "fw.fd", "--add_snp", "--dry_run", "false"]).effects →
+      (ev.kind = .result ∧ ev.ok = false) ∨ ev.kind = .retriable := by
+  have hr : runTool apTree (ws ["endorse", "--uefi", "fw.fd", "--add_snp", "--dry_run", "false"]) =
+      .run endorsePath [("uefi".toList, "fw.fd".toList), ("add_snp".toList, "true".toList), ("dry_run".toList, "true".toList)]
+        (ws ["false"]) [endorsePath] := by decide +kernel
+  refine ⟨hr, ?_⟩
+  apply C15_argv_cli_dry_run_pure
+  intro os pos hooks h
+  have : runTool apTree (List.map String.toList ["endorse", "--uefi", "fw.fd", "--add_snp", "--dry_run", "false"]) =
+      runTool apTree (ws ["endorse", "--uefi", "fw.fd", "--add_snp", "--dry_run", "false"]) := rfl
+  rw [this, hr] at h
+  cases h
+  decide
+
+/-- EVERY canonical command line of `endorse` whose last `--dry_run` occurrence reads true — any other occurrences
+    (names visible from `endorse`, any value texts, Bool texts strconv.ParseBool accepts, no true `--help`), in any
+    order, any repetition, any positional words — has the no-side-effect conclusion of C15, on both trees. -/
+theorem C15_argv_cli_canonical_dry_run (T : Tree) (hT : T = apTree ∨ T = npTree) (N : Numerals) (P : Params) (Pr : Prims)
+    (Tb : Tables) (E : Env) (keys : Option Keys) (vcs : Option (List Attempt)) (vcss : List (List Attempt))
+    (occs : List Occ) (pos : List Tok)
+    (ho : ∀ o ∈ occs, renderable (T.full.withHelp endorsePath) o = true)
+    (hh : helpVal occs = false)
+    (hb : firstBad (boolOk (T.full.withHelp endorsePath)) [] occs = none)
+    (hd : lastBool "dry_run" occs = true) :
+    ∀ i ev, Eff.vcs i ev ∈ (endorseRun T N P Pr Tb E keys vcs vcss
+        ((render endorsePath occs pos).map String.ofList)).effects →
+      (ev.kind = .result ∧ ev.ok = false) ∨ ev.kind = .retriable := by
+  have hc : canon T endorsePath = true := by
+    rcases hT with rfl | rfl
+    · exact C06_argv_canon_ap "endorse" (by simp)
+    · exact C12_argv_canon_np "endorse" (by simp)
+  have ha : argsErr (argsOf T.full endorsePath) pos = none := by
+    have : argsOf T.full endorsePath = .legacy := by rcases hT with rfl | rfl <;> decide +kernel
+    rw [this]; rfl
+  have hr := C01_argv_runTool_roundtrip T endorsePath occs pos hc ho hh ha hb
+  apply C15_argv_cli_dry_run_pure
+  intro os pos' hooks h
+  have hm : List.map String.toList (List.map String.ofList (render endorsePath occs pos)) = render endorsePath occs pos := by
+    rw [List.map_map]
+    conv => rhs; rw [← List.map_id (render endorsePath occs pos)]
+    apply List.map_congr_left
+    intro a _
+    simp
+  rw [hm, hr] at h
+  cases h
+  exact hd
+
+/-- Positional words change nothing: two argv that reach `endorse` with the same occurrences are the same run. -/
+theorem C06_argv_cli_positionals_ignored (T : Tree) (N : Numerals) (P : Params) (Pr : Prims) (Tb : Tables) (E : Env)
+    (keys : Option Keys) (vcs : Option (List Attempt)) (vcss : List (List Attempt)) (a b : List String)
+    (os : List Occ) (pa pb : List Tok) (ha' hb' : List (List Tok))
+    (ha : runTool T (a.map String.toList) = .run endorsePath os pa ha')
+    (hb : runTool T (b.map String.toList) = .run endorsePath os pb hb') :
+    endorseRun T N P Pr Tb E keys vcs vcss a = endorseRun T N P Pr Tb E keys vcs vcss b := by
+  unfold endorseRun endorseOfArgv
+  simp only [ha, hb, if_true]
+  cases endorseFlagsOf N os <;> rfl
+
+/-- The same for `--measurement_only`: every accepted spelling reads true, `--measurement_only false` included. -/
+theorem C15_argv_cli_measurement_only_spellings :
+    ∀ T ∈ [apTree, npTree], ∀ argv ∈
+      [["endorse", "--measurement_only"], ["endorse", "--measurement_only=true"],
+       ["endorse", "--add_tdx", "--measurement_only", "--uefi", "fw.fd"],
+       ["endorse", "--measurement_only=false", "--measurement_only"], ["endorse", "--measurement_only", "false"]],
+      boolOf "measurement_only" T argv = some true := by
+  decide +kernel
+
+end EndorseArgv
 
 /-! ## regenerated facts (extract/xargv.go → Gen/ArgvFlags.lean) -/
 
@@ -488,10 +835,95 @@ theorem C01_argv_settings :
 /-- The trees carry what the census says: no shorthand anywhere, a NoOptDefVal only "true", no flag named `help`,
     legacy `Args` everywhere, only `rsTree` traverses. -/
 theorem C01_argv_trees_flags :
-    ([rpTree, rsTree, npTree].all fun T => T.cmds.all fun c =>
+    ([rpTree, rsTree, npTree, apTree].all fun T => T.cmds.all fun c =>
       (c.lflags ++ c.pflags).all (fun f => f.short == none && (f.noOpt == [] || f.noOpt == "true".toList) &&
         f.name != helpName) && c.args == .legacy && !c.noParse && c.aliases == []) = true ∧
-    [rpTree.traverse, rsTree.traverse, npTree.traverse] = [false, true, false] := by
+    [rpTree.traverse, rsTree.traverse, npTree.traverse, apTree.traverse] = [false, true, false, false] := by
+  constructor <;> decide +kernel
+
+/-! ### per-flag rows regenerated from the flag-defining calls (Gen.ArgvFlags.flagDefs) -/
+
+def wiringSources : List String :=
+  ["testing/nonprod/localkm.T.AddFlags", "testing/nonprod/localca.T.AddFlags", "sign/gcsca.CertificateAuthority.AddFlags"]
+
+/-- Which functions' flag definitions land on which command: the constructors of gcetcbendorsement/cmd define the
+    flags of the command they make (`rs`: the shipped RootCmd's `init` adds two to the root); cmd.MakeApp puts
+    output.Options.AddFlags on the root and, on every command, app.Global's AddFlags (testing/nonprod: localkm.T,
+    localca.T → gcsca.CertificateAuthority; nothing in `ap`), the command's own and its application component's. -/
+def flagSources (tree cmd : String) : List String :=
+  let w := if tree = "np" then wiringSources else []
+  if tree = "rp" ∨ tree = "rs" then
+    (if cmd = "" then (if tree = "rs" then ["gcetcbendorsement/cmd.init"] else [])
+     else if cmd = "extract" then ["gcetcbendorsement/cmd.makeExtract"]
+     else if cmd = "inspect" then ["gcetcbendorsement/cmd.makeInspect"]
+     else if cmd = "inspect mask" then ["gcetcbendorsement/cmd.makeMaskCmd"]
+     else if cmd = "sev" then ["gcetcbendorsement/cmd.makeSevCommand"]
+     else if cmd = "sev validate" then ["gcetcbendorsement/cmd.makeSevValidateCommand"]
+     else if cmd = "sev policy" then ["gcetcbendorsement/cmd.makeSevPolicyCommand"]
+     else if cmd = "tdx" then ["gcetcbendorsement/cmd.makeTdxCommand"]
+     else if cmd = "tdx validate" then ["gcetcbendorsement/cmd.makeTdxValidateCommand"]
+     else if cmd = "tdx policy" then ["gcetcbendorsement/cmd.makeTdxPolicyCommand"]
+     else if cmd = "verify" then ["gcetcbendorsement/cmd.makeVerify"]
+     else [])
+  else
+    (if cmd = "" then w ++ ["cmd/output.Options.AddFlags"]
+     else if cmd = "endorse" then
+       w ++ ["cmd.endorseCommand.AddFlags"] ++ (if tree = "np" then ["testing/nonprod/localnonvcs.T.AddFlags"] else [])
+     else if cmd = "bootstrap" then w ++ ["cmd.BootstrapCommand.AddFlags"]
+     else if cmd = "rotate" then w ++ ["cmd.RotateCommand.AddFlags"]
+     else if cmd = "wipeout" then w ++ ["cmd.wipeoutBase"]
+     else [])
+
+/-- the rows of the given functions and scope as flag specs: name, shorthand, NoOptDefVal -/
+def genSpecs (srcs : List String) (scope : String) : List FlagSpec :=
+  (Gen.ArgvFlags.flagDefs.filter (fun r => srcs.contains r.1 && r.2.1 == scope)).map fun r =>
+    { name := r.2.2.1.toList, short := r.2.2.2.1.toList.head?, noOpt := r.2.2.2.2.2.toList }
+
+def sameSpecs (a b : List FlagSpec) : Bool := a.length == b.length && a.all b.contains && b.all a.contains
+
+def treeMatchesDefs (tree : String) (T : Tree) : Bool :=
+  T.cmds.all fun c =>
+    sameSpecs c.lflags (genSpecs (flagSources tree (pathString c.path)) "local") &&
+    sameSpecs c.pflags (genSpecs (flagSources tree (pathString c.path)) "persistent")
+
+/-- Every flag of every command of the four trees — name, shorthand, NoOptDefVal, and whether it was defined through
+    `cmd.Flags()` or `cmd.PersistentFlags()` — is a row regenerated from the flag-defining call in the source, and
+    every regenerated row of the command's constructors is in the tree: a flag turned from String to Bool, a new
+    shorthand, a flag moved between the two flag sets, a flag added or dropped breaks this. -/
+theorem C01_argv_flag_defs : treeMatchesDefs "rp" rpTree = true ∧ treeMatchesDefs "rs" rsTree = true := by
+  constructor <;> decide +kernel
+
+theorem C12_argv_flag_defs : treeMatchesDefs "np" npTree = true := by decide +kernel
+
+theorem C06_argv_flag_defs : treeMatchesDefs "ap" apTree = true := by decide +kernel
+
+def kindName (k : String) : String := if k.startsWith "Go:" then (k.drop 3).toString else k
+
+/-- (flag, kind) of the given functions -/
+def genKinds (srcs : List String) : List (String × String) :=
+  (Gen.ArgvFlags.flagDefs.filter (fun r => srcs.contains r.1)).map fun r => (r.2.2.1, kindName r.2.2.2.2.1)
+
+def sameKinds (a b : List (String × String)) : Bool := a.length == b.length && a.all b.contains && b.all a.contains
+
+/-- The type column of the command-line models' flag tables is the kind of the defining call (pflag's method stem;
+    the Go type of the Value for `AddGoFlag`): the glue (`endorseFlagsOf`, `keyFlagsOf`) treats a flag by that
+    column — last occurrence / every occurrence / Bool text. -/
+theorem C06_argv_flag_kinds :
+    sameKinds (EndorseCli.flagTable.map fun r => (r.1, r.2.1))
+      (genKinds ["cmd.endorseCommand.AddFlags", "cmd/output.Options.AddFlags"]) = true := by decide +kernel
+
+theorem C12_argv_flag_kinds :
+    sameKinds (KeyCli.bootstrapFlagTable.map fun r => (r.1, r.2.1)) (genKinds ["cmd.BootstrapCommand.AddFlags"]) = true ∧
+    sameKinds (KeyCli.rotateFlagTable.map fun r => (r.1, r.2.1)) (genKinds ["cmd.RotateCommand.AddFlags"]) = true ∧
+    sameKinds (KeyCli.wipeoutFlagTable.map fun r => (r.1, r.2.1)) (genKinds ["cmd.wipeoutBase"]) = true ∧
+    sameKinds (KeyCli.outputFlagTable.map fun r => (r.1, r.2.1)) (genKinds ["cmd/output.Options.AddFlags"]) = true ∧
+    sameKinds (KeyCli.wiringFlagTable.map fun r => (r.1, r.2.1)) (genKinds wiringSources) = true := by
+  refine ⟨?_, ?_, ?_, ?_, ?_⟩ <;> decide +kernel
+
+theorem C01_argv_flag_kinds :
+    RpCli.flagTable.all (fun r => (genKinds (flagSources "rp" r.1)).contains (r.2.2.1, r.2.2.2.1)) = true ∧
+    RpCli.flagTable.length =
+      (Gen.ArgvFlags.flagDefs.filter (fun r => r.1.startsWith "gcetcbendorsement/cmd.make")).length := by
   constructor <;> decide +kernel
 
 /-! ## non-vacuity -/
@@ -506,5 +938,55 @@ example : executeC npTree (render (ws ["rotate"]) [("timestamp".toList, "--quiet
   decide +kernel
 
 example : subOf (ws ["rotate"]) = some .rotate := by decide
+
+def splitComma : List Char → List (List Char)
+  | [] => [[]]
+  | c :: cs =>
+    if c = ',' then [] :: splitComma cs
+    else
+      match splitComma cs with
+      | [] => [[c]]
+      | w :: ws => (c :: w) :: ws
+
+/-- a few numerals, shapes split at commas: enough for the examples -/
+def exNumerals : Numerals :=
+  { uint := fun s => if s = "77" then some 77 else if s = "2" then some 2 else if s = "0x10" then some 16 else none
+    int := fun s => if s = "2" then some 2 else if s = "-1" then some (-1) else none
+    csv := fun s => if s = "" then some [] else some ((splitComma s.toList).map String.ofList) }
+
+section
+open GceTcb.EndorseCli GceTcb.VF
+
+/-- End to end on a concrete environment (that of the C15Cli example): the argv below — value flags in both spellings,
+    a Bool flag overridden, `--dry_run false` — reaches the pipeline, makes the 4 key calls and the single Result call
+    of a dry run, prints nothing; the same argv without `--dry_run false` makes 8 back-end calls; with
+    `--measurement_only false` no call at all and 4 lines; `--dry_run=maybe` and `--clspec 0x` have no effect. -/
+example :
+    let run := fun argv => endorseRun apTree exNumerals exParams15 exP exT exEnv15 exKeys (some exScript) [] argv
+    let common := ["endorse", "--uefi", "fw.fd", "--add_snp=false", "--add_snp", "--add_tdx=1", "--out_dir=out",
+                   "--tdx_machine_shapes", "c3-standard-4", "--candidate_name", "rc0", "--clspec=0x10"]
+    let dry := run (common ++ ["--dry_run", "false"])
+    let real := run common
+    let mo := run (common ++ ["--measurement_only", "false"])
+    let bad := run (common ++ ["--dry_run=maybe"])
+    let badnum := run (common ++ ["--clspec", "0x"])
+    (countKeys dry.effects, countVcs dry.effects, stdoutLines dry.effects) = (4, 1, []) ∧
+    (countKeys real.effects, countVcs real.effects, stdoutLines real.effects) = (4, 8, []) ∧
+    (countKeys mo.effects, countVcs mo.effects, (stdoutLines mo.effects).length) = (0, 0, 4) ∧
+    bad.effects.length = 0 ∧ bad.result = .err "parse:argv" ∧
+    badnum.effects.length = 0 ∧ badnum.result = .err "parse:clspec" ∧
+    dry.result = .ok () ∧ real.result = .ok () := by
+  decide +kernel
+
+/-- the hypotheses of `C15_argv_cli_canonical_dry_run` are met by occurrence lists with awkward value texts -/
+example :
+    let occs : List Occ := [("dry_run".toList, "false".toList), ("uefi".toList, "--dry_run=false".toList),
+                            ("dry_run".toList, "T".toList), ("snp_product".toList, [])]
+    (occs.all fun o => renderable (apTree.full.withHelp endorsePath) o) = true ∧ helpVal occs = false ∧
+    firstBad (boolOk (apTree.full.withHelp endorsePath)) [] occs = none ∧ lastBool "dry_run" occs = true := by
+  decide +kernel
+
+end
+
 
 end GceTcb.Props.CliArgv
